@@ -448,6 +448,8 @@ structure MState where
   kids : Key → Kids := fun _ => []
   /-- NumLink of every node -/
   nl : Key → Int := fun _ => 0
+  /-- `hardlinkSources`: the entries other names were linked to -/
+  hlSources : List Key := []
 
 def impKey (p : Path) : Key := if p = [] then .root else .imp p
 
@@ -515,7 +517,8 @@ def pass2Step (ms : List MEnt) (s : MState) (i : Nat) (m : MEnt) : Option MState
       | some org =>
         if keyType ms org = "dir" then none
         else
-          let s := { s with nl := fun k => if k = org then s.nl k + 1 else s.nl k }
+          let s := { s with nl := fun k => if k = org then s.nl k + 1 else s.nl k,
+                            hlSources := org :: s.hlSources }
           some (mAddChild ms s pk (baseName m.path) org)
     else some (mAddChild ms s pk (baseName m.path) (.ent i))
 
@@ -590,6 +593,9 @@ def memTree (es : List Entry) : Outcome Tree :=
   match pass2 ms (enumFrom' 0 ms) { nl := initNl ms } with
   | none => .reject
   | some s =>
+    -- "is a source of a hardlink but is used as a directory": an entry reachable through
+    -- several names must not have children
+    if s.hlSources.any (fun org => ¬ (s.kids org).isEmpty) then .reject else
     -- `if len(r.m) == 0 { r.m[""] = &TOCEntry{Type: "dir", Mode: 0755, NumLink: 1} }`
     let s := if lenM ms s = 0 then { s with imps := [[]], nl := fun k => if k = .root then 1 else s.nl k } else s
     match mLookupResolved ms s [] with
@@ -677,7 +683,10 @@ def dStep (s : DState) (i : Nat) (e : Entry) : Option DState :=
             | some id =>
               match s.nodes id with
               | none => none
-              | some b => some (setNode s id (bumpNumLink b), id)
+              | some b =>
+                -- "is a hardlink to the directory": the stored mode of the target
+                if fmIsDir ((b.mode.getD 0) % 4294967296) then none
+                else some (setNode s id (bumpNumLink b), id)
           else
             let found : Option (Option (Key × DbAttr)) :=
               if e.type = "dir" then
@@ -726,12 +735,13 @@ def dRun : List (Nat × Entry) → DState → DState ⊕ (Nat × DState)
     | none => .inr (i, s)
 
 /-- `initNodes` runs its decode loop inside `db.Batch`.  When the closure fails, bolt rolls the
-transaction back and runs the closure once more on its own; the JSON decoder has already
-consumed the failing entry, so the second run continues with the entries after it, on fresh
-closure locals, with every node bucket of the first run gone (only the root bucket, committed by
-`initRootNode`, survives) but the `md` map kept.  Only a failure of the second run is reported.
-Set to `false` to model a plain transaction. -/
-def batchRerun : Bool := true
+transaction back and runs the closure once more on its own.  Since a0e1c6d the closure remembers
+its first error (`initErr`) and returns it again, so the failure is reported: `batchRerun = false`.
+Before that fix (`batchRerun = true`) the second run continued with the entries after the failing
+one — the JSON decoder had already consumed it — on fresh closure locals, with every node bucket of
+the first run gone (only the root bucket, committed by `initRootNode`, survived) but the `md` map
+kept, and only a failure of the second run was reported. -/
+def batchRerun : Bool := false
 
 def dInitNodes (es : List Entry) : Option DState :=
   match dRun (enumFrom' 0 es) dInit with
